@@ -141,7 +141,7 @@ const SQL_LINES: &[&str] = &[
     "statement ok",
 ];
 
-const RESULT_LINES: &[&str] = &["1", "a b", "  x   y ", "3 values hashing to abc", "#", "----x", "é", "(empty)", "\t1\t2"];
+const RESULT_LINES: &[&str] = &["1", "a b", "  x   y ", "3 values hashing to abc", "#", "----x", "é", "(empty)", "\t1\t2", " ", "\t", "\u{a0}", " \u{2003} "];
 
 const DURS: &[(&str, u64, u32)] = &[
     ("1s", 1, 0),
@@ -159,7 +159,7 @@ const DURS: &[(&str, u64, u32)] = &[
 const LABELS: &[&str] = &["mock", "pg", "a-b", "x_1", "日本", "retry1", "nosort2"];
 const NAMES: &[&str] = &["default", "a", "A", "conn-1", "Default", "é"];
 const REGEX_TOKS: &[&str] = &["boom", "a.*b", "\\(x\\)", "[0-9]+", "x", "retry", "backoff", "3", "é+"];
-const ML_TEXTS: &[&str] = &["boom", "line1\nline2", "a\n\nb", "  indented\nx", "x\n \ny", "# hash", "----", "a\n\nb\n\nc"];
+const ML_TEXTS: &[&str] = &["boom", "line1\nline2", "a\n\nb", "  indented\nx", "x\n \ny", "# hash", "----", "a\n\nb\n\nc", ""];
 
 /// Generates one abstract script, renders it under a layout, and returns
 /// (text, expected encoded records in the order the parser must produce them).
@@ -330,7 +330,8 @@ pub fn gen_c03(r: &mut Rng) -> (String, String) {
                         _ => {
                             let t = r.pick(ML_TEXTS).to_string();
                             block.push("----".into());
-                            for l in t.split('\n') {
+                            // (an empty text is `----` directly followed by the two blank lines)
+                            for l in t.split('\n').filter(|_| !t.is_empty()) {
                                 block.push(l.to_string());
                             }
                             block.push(String::new());
@@ -373,7 +374,7 @@ pub fn gen_c03(r: &mut Rng) -> (String, String) {
                         let e = if r.chance(1, 4) {
                             format!("err {}", error_form(r, &mut toks, &mut block))
                         } else {
-                            let types = r.pick(&["I", "TT", "?", "IRT", "X"]).to_string();
+                            let types = r.pick(&["I", "TT", "?", "IRT", "X", "tiR", "Bt", "iI", "Tr", "É", "日I"]).to_string();
                             toks.push(types.clone());
                             let tchars: String = types
                                 .chars()
@@ -436,7 +437,8 @@ pub fn gen_c03(r: &mut Rng) -> (String, String) {
                         let out = if r.chance(1, 2) {
                             let t = r.pick(ML_TEXTS).to_string();
                             block.push("----".into());
-                            for l in t.split('\n') {
+                            // (an empty text is `----` directly followed by the two blank lines)
+                            for l in t.split('\n').filter(|_| !t.is_empty()) {
                                 block.push(l.to_string());
                             }
                             block.push(String::new());
